@@ -213,6 +213,9 @@ impl Monitor for C06 {
             });
         }
     }
+    fn cold_start(&self, rec: &mut Recorder) {
+        cold_start_equal(rec, "v2 parser, v1 parser, HeaderResult::parse", &cold_inputs(), &|x| format!("{:?} {:?} {:?}", v2_parse(x), v1_bytes(x), auto_parse(x)));
+    }
     fn floor(&self, tier: Tier) -> Vec<&'static str> {
         if tier == Tier::Miri {
             return vec!["oracle:v2-ok", "oracle:v2-terminal,v1-accept"];
